@@ -9,6 +9,7 @@
         block = the `num_mc` captured binomial vectors as bit strings joined by `,`
         →  <state> <recs> <total> <since> <#all_drift_states> <sims run> <blocks given>
            <shape ok> <min margin bits> | <est bits>:<denom> …   (one per simulation run)
+           | <R bits of tpr tnr ppv npv>   (`_r_stat` at the current index)
     states   → all_drift_states as a string over N/W/D
     push / pop → save / restore the detector state (prefix sharing for exhaustive runs)
 -/
@@ -53,7 +54,8 @@ private def lfrStep (m : LfrM) : List String → Option (String × LfrM)
     let sims := " ".intercalate (a.sims.map (fun r => showFloat r.est ++ ":" ++ toString r.denom))
     let out := s'.drift.toStr ++ " " ++ s'.recs.toStr ++ " " ++ toString s'.total ++ " " ++
       toString s'.since ++ " " ++ toString s'.states.length ++ " " ++ toString a.sims.length ++ " " ++
-      toString blocks.length ++ " " ++ showBool shapeOk ++ " " ++ showFloat (minMargin a.log) ++ " | " ++ sims
+      toString blocks.length ++ " " ++ showBool shapeOk ++ " " ++ showFloat (minMargin a.log) ++ " | " ++ sims ++
+      " | " ++ showFloats (allRates.map s'.r)
     pure (out, { m with s := s' })
   | ["states"] => some (String.join (m.s.states.map Drift.toStr), m)
   | ["push"] => some ("ok", { m with stack := m.s :: m.stack })
